@@ -82,7 +82,9 @@ pub fn check_eigen(b: &Built, rec: &Recorder, c: &mut Counters) -> u64 {
 }
 
 pub fn c18_families(tier: &str) -> Vec<Family> {
-    let mut v = vec![];
+    let mut v = primed_small("w12", 3);
+    v.extend(route_small("w12", false));
+    v.extend(hist_small("w12", false));
     if tier == "quick" {
         for n in 0..=3 {
             for k in [US, USL, DS, DSL] {
